@@ -5290,12 +5290,25 @@ class Entity(object, metaclass=EntityMeta):
         dependent_objects.append(obj)
         for obj2 in candidates:
             if obj2._status_ != 'marked_to_delete' or obj2 in dependent_objects: continue
-            dbvals = obj2._dbvals_
-            if not dbvals: continue
-            for attr in obj2._attrs_with_columns_:
-                if attr.reverse and dbvals.get(attr) is obj:
-                    obj2._save_(dependent_objects)
-                    break
+            if obj2._row_refers_to_(obj):
+                obj2._save_referring_rows_first_(dependent_objects)
+                obj2._save_(dependent_objects)
+    def _row_refers_to_(obj, obj2):
+        dbvals = obj._dbvals_ or {}
+        for attr in obj._attrs_with_columns_:
+            if not attr.reverse: continue
+            # (a reference that is part of the primary key cannot change and has no db value of its own)
+            val = dbvals.get(attr) if attr.pk_offset is None else obj._vals_.get(attr)
+            if val is obj2: return True
+        return False
+    def _save_referring_rows_first_(obj, dependent_objects):
+        # This object is deleted ahead of its turn.  The UPDATEs which detach other rows from it and the DELETEs of
+        # rows which refer to it were queued before its DELETE and have to be sent before it as well (else the
+        # DELETE fails, or ON DELETE SET NULL changes those rows and their optimistic checks fail)
+        for obj2 in obj._session_cache_.objects_to_save[:obj._save_pos_]:
+            if obj2 is None or obj2 in dependent_objects: continue
+            if obj2._status_ not in ('modified', 'marked_to_delete'): continue
+            if obj2._row_refers_to_(obj): obj2._save_(dependent_objects)
     def _update_dbvals_(obj, after_create, new_dbvals):
         bits = obj._bits_
         vals = obj._vals_
